@@ -199,6 +199,8 @@ class Run(object):
         self.old_state = None
         self.result_value = None
         self.in_loop_effects = None
+        self.entry_states = []
+        self._loop_ids = None
 
     # ------------------------------------------------------------ utilities
     def fresh(self, base, sort):
@@ -230,6 +232,11 @@ class Run(object):
             return NONE
         if k == "tuple":
             return TupleV([self.fresh_value(st, t, base + "_%d" % i) for i, t in enumerate(ty.arg)])
+        if k == "rec":
+            fields = {}
+            for name, opt, fty in ty.arg:
+                fields[name] = (self.fresh(base + "_has_" + name, BOOL) if opt else TRUE, self.fresh_value(st, fty, base + "_" + name))
+            return RecV(fields)
         if k == "dict":
             kt, vt = ty.arg
             return DictV(
@@ -265,6 +272,8 @@ class Run(object):
             if val is None:
                 raise Unsupported("untyped empty list used as value")
             return val
+        if isinstance(v, OptV) and self.spec_mode:
+            return self.raw(st, v.val)
         raise Unsupported("no raw term for %r" % (v,))
 
     def type_of(self, st, v):
@@ -282,22 +291,30 @@ class Run(object):
             return Type("tuple", [self.type_of(st, x) for x in v.items])
         raise Unsupported("type_of %r" % (v,))
 
-    def field_type(self, cls, f):
+    def field_info(self, cls, f):
+        """(static type, heap key).  A field declared for a class gets its own heap array."""
         ft = self.engine.fields
         for c in self.engine.mro(cls) if cls else []:
-            k = c.split(".")[-1] + "." + f
             if c + "." + f in ft:
-                return parse_type(ft[c + "." + f])
+                return parse_type(ft[c + "." + f]), c.split(".")[-1] + "__" + f
         if f in ft:
-            return parse_type(ft[f])
+            return parse_type(ft[f]), f
         raise Unsupported("no declared type for field %s (class %s)" % (f, cls))
 
-    def heap_arr(self, st, f, ty):
-        key = f
+    def field_type(self, cls, f):
+        return self.field_info(cls, f)[0]
+
+    def heap_arr(self, st, key, ty):
+        pre = st.ghost.get("#heap_prefix", "H_")
         if key not in st.heap:
-            st.heap[key] = Const("H_%s!0" % f, tm.Arr(REF, ty.sort() if ty.kind != "opt" else ty.arg.sort()))
+            st.heap[key] = Const("%s%s!0" % (pre, key), tm.Arr(REF, ty.sort() if ty.kind != "opt" else ty.arg.sort()))
             if ty.kind == "opt":
-                st.heap[key + "?"] = Const("H_%s_isnone!0" % f, tm.Arr(REF, BOOL))
+                st.heap[key + "?"] = Const("%s%s_isnone!0" % (pre, key), tm.Arr(REF, BOOL))
+        reads = st.ghost.get("#reads")
+        if reads is not None:
+            reads.add(key)
+            if ty.kind == "opt":
+                reads.add(key + "?")
         return st.heap[key]
 
     # ---------------------------------------------------------- obligations
@@ -379,7 +396,7 @@ class Run(object):
         if isinstance(v, ObjV):
             return TRUE
         if isinstance(v, RecV):
-            return B(len(v.fields) > 0)
+            return Or(*[p for p, x in v.fields.values()])
         raise Unsupported("truth of %r" % (v,))
 
     # ----------------------------------------------------------- expressions
@@ -452,7 +469,7 @@ class Run(object):
                 return self.lift_const(st, r[1])
         if n in ("len", "range", "enumerate", "isinstance", "int", "str", "print", "type", "list", "sorted", "min", "max", "bool", "reversed", "getattr", "open"):
             return FuncV("builtins." + n)
-        if self.spec_mode and n in self.engine.spec_funcs:
+        if self.spec_mode and (n in self.engine.spec_funcs or n in self.engine.homs):
             return FuncV("spec." + n)
         if n in ("IndexError", "KeyError", "TypeError", "AttributeError", "PermissionError", "FileNotFoundError", "OSError", "Exception"):
             return ClassV("builtins." + n)
@@ -494,23 +511,23 @@ class Run(object):
         raise Unsupported("attribute %s of %r" % (attr, base))
 
     def read_field(self, st, obj, f, node=None):
-        ty = self.field_type(obj.cls, f)
-        arr = self.heap_arr(st, f, ty)
-        key = (str(obj.term), f)
+        ty, hk = self.field_info(obj.cls, f)
+        arr = self.heap_arr(st, hk, ty)
+        key = (obj.term, hk)
         if ty.kind == "list":
             for cid, (val, backing) in st.cells.items():
                 if key in backing:
                     return ListV(cid, ty.arg)
             return ListV(self.new_cell(st, Select(arr, obj.term), [key]), ty.arg)
         if ty.kind == "opt":
-            isn = Select(st.heap[f + "?"], obj.term)
+            isn = Select(st.heap[hk + "?"], obj.term)
             return OptV(isn, self.wrap(st, Select(arr, obj.term), ty.arg))
         return self.wrap(st, Select(arr, obj.term), ty)
 
     def write_field(self, st, obj, f, v, node=None):
-        ty = self.field_type(obj.cls, f)
-        arr = self.heap_arr(st, f, ty)
-        key = (str(obj.term), f)
+        ty, hk = self.field_info(obj.cls, f)
+        arr = self.heap_arr(st, hk, ty)
+        key = (obj.term, hk)
         st.effect = True
         # drop old backings for this location
         for cid, (val, backing) in list(st.cells.items()):
@@ -523,29 +540,29 @@ class Run(object):
             if val is None:
                 val = Empty(ty.arg.sort())
             st.cells[v.cell] = (val, backing | {key})
-            st.heap[f] = Store(arr, obj.term, val)
+            st.heap[hk] = Store(arr, obj.term, val)
             return
         if ty.kind == "opt":
             if isinstance(v, NoneV):
-                st.heap[f + "?"] = Store(st.heap[f + "?"], obj.term, TRUE)
+                st.heap[hk + "?"] = Store(st.heap[hk + "?"], obj.term, TRUE)
                 return
             if isinstance(v, OptV):
-                st.heap[f + "?"] = Store(st.heap[f + "?"], obj.term, v.isnone)
-                st.heap[f] = Store(arr, obj.term, self.raw(st, v.val))
+                st.heap[hk + "?"] = Store(st.heap[hk + "?"], obj.term, v.isnone)
+                st.heap[hk] = Store(arr, obj.term, self.raw(st, v.val))
                 return
-            st.heap[f + "?"] = Store(st.heap[f + "?"], obj.term, FALSE)
-            st.heap[f] = Store(arr, obj.term, self.raw(st, v))
+            st.heap[hk + "?"] = Store(st.heap[hk + "?"], obj.term, FALSE)
+            st.heap[hk] = Store(arr, obj.term, self.raw(st, v))
             return
-        st.heap[f] = Store(arr, obj.term, self.raw(st, v))
+        if isinstance(v, NoneV):
+            raise Unsupported("None stored into non-optional field " + f)
+        st.heap[hk] = Store(arr, obj.term, self.raw(st, v))
 
     def set_cell(self, st, cid, val):
         old, backing = st.cells[cid]
         st.cells[cid] = (val, backing)
         st.effect = True
-        for objs, f in backing:
-            # find obj term again: we stored its string; rebuild a const-like term
-            arr = st.heap[f]
-            st.heap[f] = Store(arr, T("#const", (objs,), REF), val)
+        for objt, hk in backing:
+            st.heap[hk] = Store(st.heap[hk], objt, val)
 
     # ------------------------------------------------------------ subscripts
     def ev_Subscript(self, node, st):
@@ -628,9 +645,14 @@ class Run(object):
         if isinstance(base, RecV):
             if isinstance(idx, T) and idx.op == "#str":
                 if idx.val in base.fields:
-                    return base.fields[idx.val]
+                    present, val = base.fields[idx.val]
+                    self.check(st, present, "KeyError", node)
+                    return val
                 self.check(st, FALSE, "KeyError", node)
                 raise Unsupported("missing record key " + idx.val)
+        if isinstance(base, OptV):
+            self.check(st, Not(base.isnone), "TypeError", node)
+            return self.index(st, base.val, idx, node)
         if isinstance(base, DictV):
             k = self.raw(st, idx)
             self.check(st, Select(base.keys, k), "KeyError", node)
@@ -673,7 +695,14 @@ class Run(object):
         if isinstance(a, T) and isinstance(b, T):
             return Ite(c, a, b)
         if isinstance(a, ListV) and isinstance(b, ListV):
-            return ListV(self.new_cell(st, Ite(c, self.raw(st, a), self.raw(st, b))), a.elem or b.elem)
+            va, vb = st.cells[a.cell][0], st.cells[b.cell][0]
+            if va is None and vb is None:
+                return a
+            if va is None:
+                va = Empty(vb.sort[1])
+            if vb is None:
+                vb = Empty(va.sort[1])
+            return ListV(self.new_cell(st, Ite(c, va, vb)), a.elem or b.elem)
         raise Unsupported("conditional expression on non-terms")
 
     def ev_BinOp(self, node, st):
@@ -789,6 +818,8 @@ class Run(object):
             if val is None:
                 return FALSE
             xr = self.raw(st, x)
+            if val.sort == Seq(VAL) and xr.sort != VAL:
+                xr = App("VInt" if xr.sort == INT else "VStr", (xr,), VAL)
             # literal list -> disjunction
             parts = self.static_elems(val)
             if parts is not None:
@@ -802,7 +833,10 @@ class Run(object):
             return Select(container.keys, self.raw(st, x))
         if isinstance(container, RecV):
             if isinstance(x, T) and x.op == "#str":
-                return B(x.val in container.fields)
+                return container.fields[x.val][0] if x.val in container.fields else FALSE
+        if isinstance(container, OptV):
+            self.check(st, Not(container.isnone), "TypeError", node)
+            return self.contains(st, container.val, x, node)
         raise Unsupported("in on %r" % (container,))
 
     def static_elems(self, seq):
@@ -876,7 +910,7 @@ class Run(object):
 
     # ------------------------------------------------------------------ calls
     def ev_Call(self, node, st):
-        if self.spec_mode and isinstance(node.func, ast.Name) and node.func.id in ("old", "forall", "exists", "implies"):
+        if self.spec_mode and isinstance(node.func, ast.Name) and node.func.id in ("old", "forall", "exists", "implies", "entry"):
             return self.spec_form(node, st)
         f = self.ev(node.func, st)
         if not isinstance(f, (FuncV, ClassV)):
@@ -898,10 +932,10 @@ class Run(object):
 
     def spec_form(self, node, st):
         name = node.func.id
-        if name == "old":
-            o = self.old_state
+        if name in ("old", "entry"):
+            o = self.old_state if name == "old" else (self.entry_states[-1] if self.entry_states else None)
             if o is None:
-                raise Unsupported("old() outside a postcondition")
+                raise Unsupported("%s() has no reference state here" % name)
             o2 = o.fork()
             saved = self.old_state
             try:
@@ -942,7 +976,77 @@ class Run(object):
         return T("#exists", (kv, rng, body), BOOL)
 
     def call_spec(self, st, name, args, node):
+        if name in self.engine.homs:
+            return self.hom_call(st, name, args)
         return self.engine.spec_funcs[name](self, st, args, node)
+
+    # ----------------------------------------------- homomorphic spec functions
+    def hom_template(self, name):
+        eng = self.engine
+        if name in eng.hom_templates:
+            return eng.hom_templates[name]
+        d = eng.homs[name]
+        st = State()
+        st.ghost["#heap_prefix"] = "$H_"
+        st.ghost["#reads"] = set()
+        ety = parse_type(d["elem"])
+        st.env["x"] = self.wrap(st, Const("$x", ety.sort()), ety)
+        ctxn = []
+        for i, (cn, ct) in enumerate(d.get("ctx", [])):
+            cty = parse_type(ct)
+            st.env[cn] = self.wrap(st, Const("$c%d" % i, cty.sort()), cty)
+            ctxn.append("$c%d" % i)
+        node = ast.parse(d["unit"].strip(), mode="eval").body
+        saved = self.spec_mode
+        self.spec_mode += 1
+        try:
+            v = self.ev(node, st)
+        finally:
+            self.spec_mode = saved
+        rty = parse_type(d["result"])
+        if isinstance(v, ListV) and st.cells[v.cell][0] is None:
+            raw = Empty(rty.arg.sort())
+        else:
+            raw = self.raw(st, v)
+        keys = sorted(st.ghost["#reads"])
+        tpl = {
+            "name": name,
+            "template": raw,
+            "x": "$x",
+            "ctx": ctxn,
+            "heap": [(k, st.heap[k].args[0]) for k in keys],
+            "heap_sorts": [st.heap[k].sort for k in keys],
+            "kind": "str" if rty.kind == "str" else "int" if rty.kind == "int" else "seq",
+            "rtype": d["result"],
+            "ctx_types": [ct for cn, ct in d.get("ctx", [])],
+            "elem": d["elem"],
+        }
+        eng.hom_templates[name] = tpl
+        UFS["hom_" + name] = ([Seq(ety.sort())] + [parse_type(ct).sort() for ct in tpl["ctx_types"]] + tpl["heap_sorts"], rty.sort())
+        return tpl
+
+    def hom_call(self, st, name, args):
+        tpl = self.hom_template(name)
+        seqv = args[0]
+        if isinstance(seqv, ListV) and st.cells[seqv.cell][0] is None:
+            seq = Empty(parse_type(tpl["elem"]).sort())
+        else:
+            seq = self.raw(st, seqv)
+        ctx = [self.raw(st, a) for a in args[1:]]
+        if len(ctx) != len(tpl["ctx"]):
+            raise Unsupported("spec function %s expects %d context arguments" % (name, len(tpl["ctx"])))
+        hidden = []
+        for (k, ph), srt in zip(tpl["heap"], tpl["heap_sorts"]):
+            if k not in st.heap:
+                pre = st.ghost.get("#heap_prefix", "H_")
+                st.heap[k] = Const("%s%s!0" % (pre, k), srt)
+            reads = st.ghost.get("#reads")
+            if reads is not None:
+                reads.add(k)
+            hidden.append(st.heap[k])
+        rty = parse_type(tpl["rtype"])
+        t = App("hom_" + name, [seq] + ctx + hidden, rty.sort())
+        return self.wrap(st, t, rty)
 
     def call_builtin(self, st, name, args, kwargs, node):
         if name == "len":
@@ -1008,6 +1112,9 @@ class Run(object):
             return IterV(Len(val), lambda st2, i: self.wrap_elem(st2, Nth(val, i), v.elem), val)
         if isinstance(v, T) and v.sort == STR:
             return IterV(Len(v), lambda st2, i: Nth(v, i), v)
+        if isinstance(v, OptV):
+            self.check(st, Not(v.isnone), "TypeError", None)
+            return self.to_iter(st, v.val)
         raise Unsupported("iteration over %r" % (v,))
 
     def call_method(self, st, base, name, args, kwargs, node):
@@ -1318,17 +1425,44 @@ class Run(object):
     def guarded(self, st, t):
         return Implies(And(*st.guards), t) if st.guards else t
 
+    def heap_keys_of(self, spec):
+        """'f' or 'Class.f' (as in FIELDS) -> [(type, heap key)] for every declaration it names"""
+        ft = self.engine.fields
+        out = []
+        if spec in ft and "." not in spec:
+            out.append((parse_type(ft[spec]), spec))
+        for k in ft:
+            if "." in k and (k == spec or k.endswith("." + spec)):
+                out.append((parse_type(ft[k]), k.split(".")[-2] + "__" + k.split(".")[-1]))
+        if not out:
+            raise Unsupported("unknown field in modifies: " + spec)
+        return out
+
+    def havoc_heap_key(self, st, hk, ty):
+        self.heap_arr(st, hk, ty)
+        st.heap[hk] = self.fresh("H_" + hk, st.heap[hk].sort)
+        if ty.kind == "opt":
+            st.heap[hk + "?"] = self.fresh("H_" + hk + "_isnone", st.heap[hk + "?"].sort)
+        for cid, (val, backing) in list(st.cells.items()):
+            for objt, k2 in backing:
+                if k2 == hk:
+                    st.cells[cid] = (Select(st.heap[hk], objt), backing)
+
     def havoc_target(self, st, m, env):
         st.effect = True
+        if m.startswith("ghost:"):
+            g = m[6:]
+            v = st.ghost[g]
+            if isinstance(v, ListV):
+                self.set_cell(st, v.cell, self.fresh(g, st.cells[v.cell][0].sort))
+            elif isinstance(v, T):
+                st.ghost[g] = self.fresh(g, v.sort)
+            else:
+                raise Unsupported("havoc ghost " + g)
+            return
         if m.startswith("heap:"):
-            f = m[5:]
-            ty = parse_type(self.engine.fields[f])
-            self.heap_arr(st, f, ty)
-            st.heap[f] = self.fresh("H_" + f, st.heap[f].sort)
-            for cid, (val, backing) in list(st.cells.items()):
-                for objs, ff in backing:
-                    if ff == f:
-                        st.cells[cid] = (Select(st.heap[f], T("#const", (objs,), REF)), backing)
+            for ty, hk in self.heap_keys_of(m[5:]):
+                self.havoc_heap_key(st, hk, ty)
             return
         node = ast.parse(m, mode="eval").body
         if isinstance(node, ast.Name):
@@ -1349,13 +1483,13 @@ class Run(object):
                 self.spec_mode -= 1
             if not isinstance(obj, ObjV):
                 raise Unsupported("modifies target " + m)
-            ty = self.field_type(obj.cls, node.attr)
-            arr = self.heap_arr(st, node.attr, ty)
-            key = (str(obj.term), node.attr)
+            ty, hk = self.field_info(obj.cls, node.attr)
+            arr = self.heap_arr(st, hk, ty)
+            key = (obj.term, hk)
             fv = self.fresh(node.attr, arr.sort[2])
-            st.heap[node.attr] = Store(arr, obj.term, fv)
+            st.heap[hk] = Store(arr, obj.term, fv)
             if ty.kind == "opt":
-                st.heap[node.attr + "?"] = Store(st.heap[node.attr + "?"], obj.term, self.fresh(node.attr + "_isnone", BOOL))
+                st.heap[hk + "?"] = Store(st.heap[hk + "?"], obj.term, self.fresh(node.attr + "_isnone", BOOL))
             for cid, (val, backing) in list(st.cells.items()):
                 if key in backing:
                     st.cells[cid] = (fv, backing)
@@ -1549,6 +1683,9 @@ class Run(object):
                         if mtarget.startswith("heap:"):
                             fields.add(("*", mtarget[5:]))
                             continue
+                        if mtarget.startswith("ghost:"):
+                            fields.add(("ghost", mtarget[6:]))
+                            continue
                         mn = ast.parse(mtarget, mode="eval").body
                         root = mn
                         while isinstance(root, ast.Attribute):
@@ -1579,7 +1716,9 @@ class Run(object):
                             muts.add(amap[root] + mm[len(root) :])
                     for o, ff in f2:
                         root = o.split(".")[0]
-                        if root in amap:
+                        if o == "ghost":
+                            fields.add((o, ff))
+                        elif root in amap:
                             fields.add((amap[root] + o[len(root) :], ff))
                         else:
                             fields.add(("*", ff))
@@ -1686,7 +1825,9 @@ class Run(object):
                 self.set_cell(st, v.cell, self.fresh(mexpr, srt))
                 hav_cells.add(v.cell)
         for o, f in sorted(fields):
-            if o == "*":
+            if o == "ghost":
+                self.havoc_target(st, "ghost:" + f, st.env)
+            elif o == "*":
                 self.havoc_target(st, "heap:" + f, st.env)
             else:
                 try:
@@ -1715,9 +1856,22 @@ class Run(object):
     def loop_spec(self, ordn):
         return self.contract.get("loops", {}).get(ordn, {})
 
+    def loop_ordinal(self, s):
+        """ordinal of a loop = its position among the loops of the function under verification (source order)"""
+        if self._loop_ids is None:
+            self._loop_ids = {}
+            n = 0
+            for sub in ast.walk(self.fdef):
+                pass
+            for sub in sorted([x for x in ast.walk(self.fdef) if isinstance(x, (ast.For, ast.While))], key=lambda x: (x.lineno, x.col_offset)):
+                n += 1
+                self._loop_ids[id(sub)] = n
+        if id(s) not in self._loop_ids:
+            raise Unsupported("loop in an inlined callee (line %s)" % s.lineno)
+        return self._loop_ids[id(s)]
+
     def st_For(self, s, st):
-        self.loop_ord += 1
-        ordn = self.loop_ord
+        ordn = self.loop_ordinal(s)
         spec = self.loop_spec(ordn)
         pre = self.pre
         it = self.to_iter(st, self.ev(s.iter, st))
@@ -1728,6 +1882,7 @@ class Run(object):
         gi = "_i%d" % ordn
         invs = spec.get("invariant", [])
         # 1. invariant on entry
+        self.entry_states.append(st.fork())
         st.ghost[gi] = I(0)
         st.ghost["_i"] = I(0)
         if it.seq is not None:
@@ -1764,6 +1919,7 @@ class Run(object):
         # 4. after the loop
         after = head
         after.assume(Eq(iv, it.len))
+        self.entry_states.pop()
         for e in exits + [after]:
             if outer_i is not None:
                 e.ghost["_i"] = outer_i
@@ -1778,10 +1934,10 @@ class Run(object):
         return out
 
     def st_While(self, s, st):
-        self.loop_ord += 1
-        ordn = self.loop_ord
+        ordn = self.loop_ordinal(s)
         spec = self.loop_spec(ordn)
         invs = spec.get("invariant", [])
+        self.entry_states.append(st.fork())
         for k, inv in enumerate(invs):
             self.prove(st, self.spec_bool(inv, st), "inv-init", s, "L%d.%d" % (ordn, k + 1))
         head = st.fork()
@@ -1807,6 +1963,7 @@ class Run(object):
                 exits.append(cpl.st)
             else:
                 out.append(cpl)
+        self.entry_states.pop()
         after = head
         c2 = self.truth(after, self.ev(s.test, after))
         after.pending = []
@@ -1881,7 +2038,9 @@ class Run(object):
             if n not in types:
                 raise Unsupported("parameter %s has no declared type" % n)
             st.env[n] = self.fresh_value(st, parse_type(types[n]), n)
-        # ghost parameters
+        # ghost state (global ghost variables of the contract files) and ghost parameters
+        for g, gt in eng.ghosts.items():
+            st.ghost[g] = self.fresh_value(st, parse_type(gt), "ghost_" + g)
         for g, gt in ct.get("ghost", {}).items():
             st.ghost[g] = self.fresh_value(st, parse_type(gt), g)
         for f in ct.get("reads", []):
@@ -1938,6 +2097,10 @@ class Run(object):
                         if str(a) != str(b):
                             self.prove(c.st, Eq(a, b), "frame", self.fdef, n)
         # heap fields
+        declared_keys = set()
+        for d in declared:
+            if d.startswith("heap:"):
+                declared_keys |= set(hk for ty, hk in self.heap_keys_of(d[5:]))
         for c in comps:
             if c.kind not in ("normal", "return"):
                 continue
@@ -1945,7 +2108,7 @@ class Run(object):
                 a0 = st0.heap.get(f)
                 if a0 is None or str(a0) == str(arr):
                     continue
-                if "heap:" + f.rstrip("?") in declared:
+                if f.rstrip("?") in declared_keys:
                     continue
                 # written locations must be declared as obj.f
                 locs = []
@@ -1963,14 +2126,16 @@ class Run(object):
                     continue
                 dterms = []
                 for d in declared:
-                    if d.endswith("." + f.rstrip("?")):
-                        dn = ast.parse(d, mode="eval").body
-                        sub = st0.fork()
-                        self.spec_mode += 1
-                        try:
-                            o = self.ev(dn.value, sub)
-                        finally:
-                            self.spec_mode -= 1
+                    if d.startswith("heap:") or d.startswith("ghost:") or "." not in d:
+                        continue
+                    dn = ast.parse(d, mode="eval").body
+                    sub = st0.fork()
+                    self.spec_mode += 1
+                    try:
+                        o = self.ev(dn.value, sub)
+                    finally:
+                        self.spec_mode -= 1
+                    if isinstance(o, ObjV) and self.field_info(o.cls, dn.attr)[1] == f.rstrip("?"):
                         dterms.append(o.term)
                 for loc in locs:
                     if any(str(loc) == str(d) for d in dterms):
